@@ -487,4 +487,118 @@ theorem parseText_body {t : Bytes} {p : Pos} {body r : Bytes} (h : t.drop p.pos 
     simp
   rw [this]
 
+
+/-! ### non-blank text -/
+
+theorem escapeByte_nonspace (a : Bool) (c : UInt8) (hc : isSpace c = false) :
+    (escapeByte a c).any (fun b => !isSpace b) = true := by
+  by_cases h1 : c = 39
+  · subst h1; cases a <;> decide
+  by_cases h2 : c = 34
+  · subst h2; cases a <;> decide
+  by_cases h3 : c = 38
+  · subst h3; cases a <;> decide
+  by_cases h4 : c = 60
+  · subst h4; cases a <;> decide
+  by_cases h5 : c = 62
+  · subst h5; cases a <;> decide
+  by_cases h6 : c = 10
+  · subst h6; exact absurd hc (by decide)
+  by_cases h7 : c = 13
+  · subst h7; exact absurd hc (by decide)
+  rw [escapeByte_plain a c h1 h2 h3 h4 h5 h6 h7]
+  simp [hc]
+
+theorem escape_nonBlank (a : Bool) : ∀ (s : Bytes), nonBlank s = true → nonBlank (escape a s) = true := by
+  intro s
+  induction s with
+  | nil => intro h; simp [nonBlank] at h
+  | cons c r ih =>
+    intro h
+    simp only [nonBlank, escape, List.any_append, List.any_cons, Bool.or_eq_true] at h ⊢
+    by_cases hc : isSpace c = false
+    · left; exact escapeByte_nonspace a c hc
+    · right
+      have : isSpace c = true := by simpa using hc
+      rcases h with h | h
+      · simp [this] at h
+      · exact ih h
+
+/-- a non-blank byte string: some white space, then a byte that is none -/
+theorem nonBlank_first : ∀ (l : Bytes), nonBlank l = true →
+    ∃ m, m < l.length ∧ isSpace (l.getD m 0) = false ∧ ∀ j, j < m → isSpace (l.getD j 0) = true := by
+  intro l
+  induction l with
+  | nil => intro h; simp [nonBlank] at h
+  | cons c r ih =>
+    intro h
+    by_cases hc : isSpace c = false
+    · exact ⟨0, by simp, by simpa using hc, fun j hj => by omega⟩
+    · have hc' : isSpace c = true := by simpa using hc
+      have hr : nonBlank r = true := by
+        simp only [nonBlank, List.any_cons, Bool.or_eq_true] at h
+        rcases h with h | h
+        · simp [hc'] at h
+        · exact h
+      obtain ⟨m, hm1, hm2, hm3⟩ := ih hr
+      refine ⟨m + 1, by simp; omega, by simpa using hm2, ?_⟩
+      intro j hj
+      cases j with
+      | zero => simpa using hc'
+      | succ j => simpa using hm3 j (by omega)
+
+theorem getD_mem {l : Bytes} {j : Nat} (hj : j < l.length) : l.getD j 0 ∈ l := by
+  rw [List.getD_eq_getElem?_getD, List.getElem?_eq_getElem hj]
+  simp
+
+theorem bind_eq_ok {α β : Type} {r : Res α} {f : α → Res β} {x : β} (h : r.bind f = .ok x) :
+    ∃ a, r = .ok a ∧ f a = .ok x := by
+  cases r with
+  | ok a => exact ⟨a, rfl, h⟩
+  | err l c m => cases h
+  | oob => cases h
+  | fuel => cases h
+
+/-- a token that starts a tag starts with `<` -/
+theorem tokenAt_tag_byte {t : Bytes} {p : Pos} {tp : Token × Pos} (hp : p.pos ≤ t.length)
+    (h : tokenAt t p = .ok tp) (htag : isTag tp.1.type) : t.getD p.pos 0 = 60 := by
+  obtain ⟨c, hc, hnz, hval⟩ := peek_le hp
+  by_cases h60 : c = 60
+  · have hlt : p.pos < t.length := hnz (by rw [h60]; decide)
+    rw [← hval hlt, h60]
+  · exfalso
+    unfold tokenAt at h
+    rw [hc] at h
+    simp only [Res.ok_bind, if_neg h60] at h
+    unfold isTag at htag
+    by_cases h62 : c = 62
+    · rw [if_pos h62] at h; cases h; simp at htag
+    rw [if_neg h62] at h
+    by_cases h0 : c = 0
+    · rw [if_pos h0] at h; cases h
+    rw [if_neg h0] at h
+    by_cases h61 : c = 61
+    · rw [if_pos h61] at h; cases h; simp at htag
+    rw [if_neg h61] at h
+    by_cases hq : c = 34 ∨ c = 39
+    · rw [if_pos hq] at h
+      obtain ⟨s, _, h⟩ := bind_eq_ok h
+      cases hidx : idxOf (fun b => b == c || b == 13 || b == 10) s with
+      | none => rw [hidx] at h; cases h
+      | some k =>
+        rw [hidx] at h
+        obtain ⟨e, _, h⟩ := bind_eq_ok h
+        by_cases hec : e ≠ c
+        · rw [if_pos hec] at h; cases h
+        · rw [if_neg hec] at h; cases h; simp at htag
+    rw [if_neg hq] at h
+    obtain ⟨empt, _, h⟩ := bind_eq_ok h
+    by_cases he : empt = true
+    · rw [if_pos he] at h; cases h; simp at htag
+    rw [if_neg he] at h
+    obtain ⟨s, _, h⟩ := bind_eq_ok h
+    by_cases hn : (s.takeWhile isNameByte).isEmpty = true
+    · rw [if_pos hn] at h; cases h
+    · rw [if_neg hn] at h; cases h; simp at htag
+
 end Nstd.Xml
